@@ -76,9 +76,11 @@ func (x *Exec) evalRecv(st *State, e ast.Expr) Value {
 		case *ast.Ident:
 			obj := x.pkg.TypesInfo.ObjectOf(ee)
 			if v, ok := st.vars[obj]; ok {
-				return v
+				if _, isOpaque := v.(OpaqueV); isOpaque {
+					return v // a *sync.X parameter / pointer variable
+				}
 			}
-			return OpaqueV{T: x.eng.addrOf(x, obj), Typ: t}
+			return OpaqueV{T: x.eng.addrOf(x, obj), Typ: t} // a sync.X value held in a local: identified by its address
 		}
 	}
 	return x.eval(st, e)
@@ -376,7 +378,7 @@ func (x *Exec) callStatic(st *State, call *ast.CallExpr, callee *types.Func, rec
 	if !strings.HasPrefix(path, x.eng.modPath) {
 		return x.callExternal(st, call, callee, path, recv)
 	}
-	key := funcKey(callee)
+	key := x.eng.keyOf(callee)
 	c := x.eng.contracts[key]
 	if c == nil {
 		fail("callee %s has no contract (called at %s)", key, x.pos(call.Pos()))
@@ -822,7 +824,7 @@ func (x *Exec) goStmt(st *State, s *ast.GoStmt) {
 		x.eng.note(x.key, "go "+path+": external goroutine, effects not modelled")
 		return
 	}
-	key := funcKey(callee)
+	key := x.eng.keyOf(callee)
 	c := x.eng.contracts[key]
 	if c == nil {
 		fail("goroutine entry %s has no contract (spawned at %s)", key, x.pos(call.Pos()))
